@@ -12,7 +12,9 @@ namespace Biogo.Properties.C19_source
     passes hook (a), then closes `out` iff it is the `threads`-th to count itself out, then
     releases the wait group; every setter runs under the mutex; Wait sleeps on the condition
     variable while the mailbox is empty and takes / puts the message back with the mutex held,
-    hook (b) in between. -/
+    hook (b) in between; `fail` decides from the `set` flag of `messageState` (not from the
+    message's content); `Recover` takes the message only inside `if p.recoverable`; `fulfill` and `fail` each put a
+    message once and `Broadcast` on the condition variable directly afterwards. -/
 theorem model_is_of_this_source :
     Biogo.Generated.Concurrent.hookPoints =
       [("NewProcessor", "worker.start"), ("NewProcessor", "worker.token_returned"),
@@ -23,7 +25,10 @@ theorem model_is_of_this_source :
     Biogo.Generated.Concurrent.settersLocked =
       [("Fulfill", true), ("Fail", true), ("Recover", true), ("Break", true)] ∧
     Biogo.Generated.Concurrent.waitTakesUnderMutex = true ∧
-    Biogo.Generated.Concurrent.waitSleepsOnCond = true := by
+    Biogo.Generated.Concurrent.waitSleepsOnCond = true ∧
+    Biogo.Generated.Concurrent.failCond = "!set" ∧
+    Biogo.Generated.Concurrent.recoverTakesMessage = "when-recoverable" ∧
+    Biogo.Generated.Concurrent.putsThenBroadcast = [("fulfill", 1, 1), ("fail", 1, 1)] := by
   decide
 
 end Biogo.Properties.C19_source
